@@ -194,32 +194,67 @@ Section BS.
   Qed.
 End BS.
 
+(* ------------------------------------------------------------------ exponential model: martingale forward, linear shifts cancel *)
+Lemma exp_mean_martingale kappa r d t : exp_mean (exp_mgf kappa r d) t = exp ((r - d) * t).
+Proof.
+  unfold exp_mean, exp_std_moment, exp_mgf, exp_mgf_formula, exp_drift, exp_omega, levy_mgf.
+  rewrite <- exp_plus. f_equal. ring.
+Qed.
+(* a linear term c*u in the exponent is absorbed by omega = -kappa(1): the law of S_t does not see it *)
+Lemma exp_mgf_shift kappa1 kappa2 c r d ls t u :
+  kappa2 u = kappa1 u - c * u -> kappa2 1 = kappa1 1 - c * 1 ->
+  exp_mgf kappa2 r d ls t u = exp_mgf kappa1 r d ls t u.
+Proof.
+  intros Hu H1. unfold exp_mgf, exp_mgf_formula, exp_drift, exp_omega, levy_mgf.
+  rewrite Hu, H1. rewrite <- !exp_plus. f_equal. ring.
+Qed.
+
 (* ------------------------------------------------------------------ VG is CGMY with C = 1/nu, G = lambda_-, M = lambda_+, Y = 0 *)
-Lemma vg_is_cgmy sigma nu theta x CG GY MY :
+Lemma vg_cgmy_exponent sigma nu theta x CG GY MY :
   0 < sigma -> 0 < nu ->
   0 < 1 + x / vgR_lambda_m sigma nu theta -> 0 < 1 - x / vgR_lambda_p sigma nu theta ->
   cgmy_exponent (vgR_c sigma nu theta) (vgR_lambda_m sigma nu theta) (vgR_lambda_p sigma nu theta) 0 CG GY MY x
-  = vg_exponent sigma nu theta x.
+  = vg_exponent sigma nu theta x - theta * x.
 Proof.
   intros Hs Hn HG HM.
   unfold cgmy_exponent, vg_exponent. cbv zeta.
   assert (E : Reqb 0 (IZR 0) = true) by (apply Reqb_true; reflexivity). rewrite E.
   rewrite <- ln_mult by assumption.
-  replace (IZR 0 + - vgR_c sigma nu theta * ln ((1 + x / vgR_lambda_m sigma nu theta) * (1 - x / vgR_lambda_p sigma nu theta)))
-    with (- ln ((1 + x / vgR_lambda_m sigma nu theta) * (1 - x / vgR_lambda_p sigma nu theta)) / nu)
-    by (unfold vgR_c; cbv zeta; field; lra).
-  f_equal. f_equal. f_equal.
-  unfold vgR_lambda_m, vgR_lambda_p. cbv zeta.
+  set (G := vgR_lambda_m sigma nu theta) in *. set (M := vgR_lambda_p sigma nu theta) in *.
   assert (Harg : 0 <= theta ^ 2 + 2 * sigma ^ 2 / nu).
   { assert (0 < 2 * sigma ^ 2 / nu). { apply Rdiv_lt_0_compat; nra. } nra. }
   pose proof (sqrt_sqrt _ Harg) as Hss. pose proof (sqrt_pos (theta ^ 2 + 2 * sigma ^ 2 / nu)) as Hsp.
+  assert (EM : M = (sqrt (theta ^ 2 + 2 * sigma ^ 2 / nu) - theta) / sigma ^ 2).
+  { unfold M, vgR_lambda_p. cbv zeta. field. nra. }
+  assert (EG : G = (sqrt (theta ^ 2 + 2 * sigma ^ 2 / nu) + theta) / sigma ^ 2).
+  { unfold G, vgR_lambda_m. cbv zeta. field. nra. }
   set (s := sqrt (theta ^ 2 + 2 * sigma ^ 2 / nu)) in *.
   assert (HD : 0 < s * s - theta ^ 2).
   { rewrite Hss. assert (0 < 2 * sigma ^ 2 / nu). { apply Rdiv_lt_0_compat; nra. } lra. }
   assert (Hp : 0 < s - theta) by nra. assert (Hm : 0 < s + theta) by nra.
   assert (Hnu : nu = 2 * sigma ^ 2 / (s * s - theta ^ 2)).
   { rewrite Hss. field. split; [lra|]. intro Z. assert (0 < 2 * sigma ^ 2) by nra. lra. }
-  clearbody s. clear Hss HG HM. rewrite Hnu. field. repeat split; try lra; nra.
+  assert (Hprod : (1 + x / G) * (1 - x / M) = IZR 1 / IZR 1 - IZR 1 / IZR 2 * nu * (x * sigma) ^ 2 - theta * nu * x).
+  { rewrite EG, EM. clearbody s. clear Hss HG HM EG EM. rewrite Hnu. field. repeat split; try lra; nra. }
+  assert (Hlin : IZR 1 / M - IZR 1 / G = theta * nu).
+  { rewrite EG, EM. clearbody s. clear Hss HG HM EG EM Hprod. rewrite Hnu. field. repeat split; try lra; nra. }
+  rewrite Hprod. replace (vgR_c sigma nu theta) with (/ nu) by (unfold vgR_c; cbv zeta; field; lra).
+  replace (/ nu * x * (IZR 1 / M - IZR 1 / G)) with (theta * x) by (rewrite Hlin; field; lra).
+  field. lra.
+Qed.
+
+(* hence the exponential models built on the two exponents (any common drift a and diffusion coefficient sd of the triplet)
+   have the same moment generating function E[S_t^u], although the raw exponents differ by theta*u *)
+Lemma vg_cgmy_same_law sigma nu theta CG GY MY a sd r d ls t u :
+  0 < sigma -> 0 < nu ->
+  0 < 1 + u / vgR_lambda_m sigma nu theta -> 0 < 1 - u / vgR_lambda_p sigma nu theta ->
+  0 < 1 + 1 / vgR_lambda_m sigma nu theta -> 0 < 1 - 1 / vgR_lambda_p sigma nu theta ->
+  exp_mgf (levy_kappa a sd (cgmy_exponent (vgR_c sigma nu theta) (vgR_lambda_m sigma nu theta) (vgR_lambda_p sigma nu theta) 0 CG GY MY)) r d ls t u
+  = exp_mgf (levy_kappa a sd (vg_exponent sigma nu theta)) r d ls t u.
+Proof.
+  intros Hs Hn Hu1 Hu2 H11 H12. apply (exp_mgf_shift _ _ theta); unfold levy_kappa.
+  - rewrite vg_cgmy_exponent by assumption. ring.
+  - rewrite vg_cgmy_exponent by assumption. ring.
 Qed.
 
 (* ------------------------------------------------------------------ statements as they appear in Properties/C18.v *)
